@@ -56,6 +56,9 @@ type Case struct {
 	// complete GET request). Whoever ends the exchange - origin, skipped round
 	// trip, failed dial - the body belongs to it and to no later exchange.
 	Body string `json:"body,omitempty"`
+	// PartialOnHijack: of a request on which the request modifier hijacks only
+	// the head and the first three body bytes are on the wire when it does.
+	PartialOnHijack bool `json:"partial_on_hijack,omitempty"`
 	// Downstream: blind CONNECTs go through a downstream proxy; "credentials"
 	// configures it with user:password in its URL.
 	Downstream string `json:"downstream,omitempty"`
@@ -557,6 +560,9 @@ func runOnce(c Case, T time.Duration) (v kit.Verdict) {
 					if cn.Unreachable {
 						host = "unreachable.test:7"
 					}
+					if cn.ConnectBeh == bSkip {
+						host = fmt.Sprintf("skipped-%d.test:7", ci)
+					}
 				}
 				e := expect{id: id, beh: cn.ConnectBeh, conn: ci, wantRes: cn.ConnectBeh != bHijReq, reached: true}
 				expects = append(expects, e)
@@ -594,6 +600,9 @@ func runOnce(c Case, T time.Duration) (v kit.Verdict) {
 				}
 				if cn.ConnectBeh == bMutate && res.Header.Get("X-Mutated-Res") != id {
 					addf("C02/mutate/"+cn.Mode+"-connect/response-mutation-lost", "CONNECT %s: X-Mutated-Res = %q", id, res.Header.Get("X-Mutated-Res"))
+				}
+				if cn.ConnectBeh == bSkip {
+					return // no tunnel was asked for by the modifiers; what counts is the call log and the dial log
 				}
 				if cn.Unreachable {
 					if c.Downstream == "" && res.Header.Get("Warning") == "" {
@@ -661,7 +670,11 @@ func runOnce(c Case, T time.Duration) (v kit.Verdict) {
 						target, host = "http://down.test/"+id, "down.test"
 					}
 				}
-				if err := send(innerRequest(c.Body, target, host, id, beh)); err != nil {
+				wire := innerRequest(c.Body, target, host, id, beh)
+				if beh == bHijReq && c.Body != "" && c.PartialOnHijack {
+					wire = wire[:strings.Index(wire, "\r\n\r\n")+4+3]
+				}
+				if err := send(wire); err != nil {
 					addf("C02/exchange/"+cn.Mode+"/client-write-failed", "exchange %s: %v", id, err)
 					return
 				}
@@ -825,6 +838,14 @@ func runOnce(c Case, T time.Duration) (v kit.Verdict) {
 				if e.beh == bHijReq && len(ds) > 0 && false {
 					// several blind connections may dial the same host; not attributable
 				}
+				if e.beh == bSkip {
+					dmu.Lock()
+					n := len(dialSeq[fmt.Sprintf("skipped-%d.test:7", e.conn)])
+					dmu.Unlock()
+					if n > 0 {
+						v.Addf("C02/skip/blind-connect/upstream-contacted", "CONNECT %s: the request modifier asked to skip the round trip, yet the target was dialled %d time(s)", e.id, n)
+					}
+				}
 				if len(ds) > 0 && ds[0] < rq.seq && len(c.Conns) == 1 {
 					v.Addf("C02/calls/blind-connect/upstream-contact-before-request-modifier", "target dialled (t=%d) before the request modifier ran (t=%d)", ds[0], rq.seq)
 				}
@@ -902,6 +923,7 @@ func genCase(t *rapid.T) Case {
 	}
 	c.Shaped = rapid.IntRange(0, 4).Draw(t, "shaped") == 0
 	c.Body = rapid.SampledFrom([]string{"", "", "", "cl", "cl-large", "chunked", "cl-request-shaped", "cl-request-shaped"}).Draw(t, "body")
+	c.PartialOnHijack = c.Body != "" && rapid.Bool().Draw(t, "partial_on_hijack")
 	if family == "blind" && rapid.Bool().Draw(t, "via_downstream") {
 		c.Downstream = rapid.SampledFrom([]string{"plain", "credentials"}).Draw(t, "downstream")
 	}
@@ -919,6 +941,9 @@ func genCase(t *rapid.T) Case {
 			if mode == "blind" {
 				// (through a downstream proxy the refusal is that proxy's answer, which martian relays)
 				cn.Unreachable = rapid.IntRange(0, 4).Draw(t, "unreachable") == 0
+				if c.Downstream == "" && rapid.IntRange(0, 5).Draw(t, "skip_connect") == 0 {
+					cn.ConnectBeh, cn.Unreachable = bSkip, false
+				}
 			}
 		}
 		if mode != "blind" {
@@ -994,6 +1019,15 @@ func classes(c Case) []string {
 	}
 	if c.Body != "" {
 		set["request-bodies-"+c.Body] = true
+		if c.PartialOnHijack {
+			for _, cn := range c.Conns {
+				for _, b := range cn.Inner {
+					if b == bHijReq {
+						set["hijack-on-request-with-body-still-arriving"] = true
+					}
+				}
+			}
+		}
 		for _, cn := range c.Conns {
 			for i, b := range cn.Inner {
 				if (b == bSkip || b == bDown) && i+1 < len(cn.Inner) {
@@ -1020,7 +1054,7 @@ var propMods = &kit.Prop[Case]{
 }
 
 func TestModifiers(t *testing.T) {
-	kit.Assume("skip-round-trip is not applied to a blind CONNECT (no defined outcome); hijackers inside a MITM tunnel write nothing (what they are handed is C05's clause)")
+	kit.Assume("hijackers inside a MITM tunnel write nothing (what they are handed is C05's clause); after a skipped blind CONNECT nothing is sent through the connection")
 	kit.Assume("connections of one case are driven one after another")
 	propMods.Check(t, kit.N(800, 1000))
 }
